@@ -18,6 +18,7 @@ def run(ctx):
     meta, errors = _ir.regenerate(ctx)
     ok, log = ctx.build_props()
     if ok:
+        _ir.nonvacuity(ctx, meta)
         _ir.check_programs(ctx, meta, IMPORTS, 'c20_check', '(fun p => t_alarms (is_pso p) GNone p)',
                            'a record may hold a fitness that is not the objective at the recorded position', 'c20_truthful')
         _ir.check_programs(ctx, meta, IMPORTS, 'c20_greedy_check', '(fun p => t_alarms (is_pso p) (if sorts p then GRank else GSlot) p)',
